@@ -162,6 +162,8 @@ class LDAPMessageParsableBase(ParsableBase):
                 six.raise_from(NotEnoughData(bytes_requested - bytes_available), e)
             else:
                 six.raise_from(InvalidValue(parsable, cls), e)
+        except (KeyError, TypeError) as e:
+            six.raise_from(InvalidValue(parsable, cls), e)
 
         return message
 
